@@ -124,6 +124,8 @@ def build(rnd, tier, flags):
             "hidden": hidden, "plain_comments": plain, "std": std, "fixed": fixed, "meta": meta,
             # fixed-form sources are also read with the form set explicitly: non-strict ('fix') and strict ('f77')
             "source_form": (r.pick([None, None, "fix", "f77"]) if fixed else None)}
+    if case["source_form"] == "f77" and any(len(ln) > 72 for ln in full + sent + minus):
+        case["source_form"] = "fix"       # strict mode cuts every line at column 72; these texts are not wrapped
     return case, progs.excluded_counts(g)
 
 
